@@ -316,7 +316,17 @@ macro_rules! impl_wide_float {
             impl Ln for $ty {
                 #[inline]
                 fn ln(self) -> Self {
-                    self.ln()
+                    // `f64x2::ln` and `f64x4::ln` use single precision
+                    // constants (about 13 correct digits) and return NaN
+                    // below `f32::MIN_POSITIVE`, so the scalar function is
+                    // applied to each lane, like for `cbrt`.
+                    let mut array = self.into_array();
+
+                    for scalar in &mut array {
+                        *scalar = scalar.ln();
+                    }
+
+                    array.into()
                 }
             }
         )+
